@@ -34,8 +34,16 @@ func c13Clone(b c13Base) c13Base {
 	return out
 }
 
-func c13Profile() *refcfg.ProfileCfg {
-	return &refcfg.ProfileCfg{Path: "prof.yaml", Name: "p", Validity: &refcfg.Validity{From: "2022-02-02", Duration: "3y"},
+// c13Profile: kind 0 static validity (from + duration), 1 duration only, 2 until only
+func c13Profile(kind int) *refcfg.ProfileCfg {
+	v := &refcfg.Validity{From: "2022-02-02", Duration: "3y"}
+	switch kind {
+	case 1:
+		v = &refcfg.Validity{Duration: "3y"}
+	case 2:
+		v = &refcfg.Validity{Until: "2044-04-04"}
+	}
+	return &refcfg.ProfileCfg{Path: "prof.yaml", Name: "p", Validity: v,
 		Exts: []refcfg.Ext{
 			{Kind: refcfg.KBC, Critical: refcfg.B(true), BC: &refcfg.BasicConstraints{Ca: refcfg.B(false)}},
 			{Kind: refcfg.KKU, KU: refcfg.Strs("digitalSignature"), Optional: refcfg.B(true)},
@@ -85,8 +93,18 @@ func c13Bases() []c13Base {
 			continue
 		}
 		b.Name += "+profile"
-		b.Prof = c13Profile()
+		b.Prof = c13Profile(0)
 		b.Cfg.Profile = "p"
+		if b.Cfg.Validity == nil {
+			// certificates that inherit their validity: also from profiles whose validity has no `from`
+			for kind := 1; kind <= 2; kind++ {
+				b2 := c13Clone(out[i])
+				b2.Name += fmt.Sprintf("+profile-relative-validity-%d", kind)
+				b2.Prof = c13Profile(kind)
+				b2.Cfg.Profile = "p"
+				out = append(out, b2)
+			}
+		}
 		if strings.HasPrefix(b.Name, "ext-subjectAlternativeName") || b.Name == "ext-list+profile" {
 			// fine: SAN overrides the profile's content-less entry
 		} else {
@@ -542,9 +560,16 @@ func c13Enumerate(tier string, yield func(any)) {
 		yield(&c13Case{Base: i, Kind: "stability"})
 		yield(&c13Case{Base: i, Kind: "edits"})
 	}
-	if tier == "thorough" {
+	{
 		ne := len(c13Edits())
-		for _, bi := range []int{0, 1, len(bases) / 2} {
+		sel := []int{0, 1, len(bases) / 2}
+		if tier == "thorough" {
+			sel = nil
+			for bi := range bases {
+				sel = append(sel, bi)
+			}
+		}
+		for _, bi := range sel {
 			for a := 0; a < ne; a++ {
 				yield(&c13Case{Base: bi, Kind: "pair", Edit: a})
 			}
@@ -746,8 +771,8 @@ func init() {
 	register(&engine.Check{
 		ID:          "C13",
 		Level:       "model_checking",
-		Rule:        fmt.Sprintf("%d base configurations (baseline, root, each optional field, 5 validity shapes, every extension kind with content, raw bodies, an extension list, manipulations; the same under a profile carrying validity and extensions) x (A) stability: re-read at another time, as x.yaml / sub/dir/y.yml / z.JSON (JSON rendering), under two aliases, under a renamed profile -> identical #HASH line; in place: a later generate-changed run, a re-rendered identical configuration with comments and a consistently renamed profile plan nothing; (B) sensitivity: each of %d single-field edits (set, unset, change of every certificate and profile field; extensions: change kind keeping the raw body, flip critical, change content, reorder, insert, delete, optional/override flips) - relevant iff the reference certificate model changes - must change the hash of a fresh run and make a generate-changed run regenerate the entity in place; thorough adds all edit pairs on three bases. states = distinct (base, edit) worlds, transitions = in-place runs", len(bases), len(c13Edits())),
-		Bound:       map[string]string{"edits": "single (thorough: pairs on 3 bases)"},
+		Rule:        fmt.Sprintf("%d base configurations (baseline, root, each optional field, 5 validity shapes, every extension kind with content, raw bodies, an extension list, manipulations; the same under a profile carrying validity and extensions) x (A) stability: re-read at another time, as x.yaml / sub/dir/y.yml / z.JSON (JSON rendering), under two aliases, under a renamed profile -> identical #HASH line; in place: a later generate-changed run, a re-rendered identical configuration with comments and a consistently renamed profile plan nothing; (B) sensitivity: each of %d single-field edits (set, unset, change of every certificate and profile field; extensions: change kind keeping the raw body, flip critical, change content, reorder, insert, delete, optional/override flips) - relevant iff the reference certificate model changes - must change the hash of a fresh run and make a generate-changed run regenerate the entity in place; all edit pairs on three bases (quick) / on every base (thorough). states = distinct (base, edit) worlds, transitions = in-place runs", len(bases), len(c13Edits())),
+		Bound:       map[string]string{"edits": "single on every base; pairs on 3 bases (quick) / all bases (thorough)"},
 		Assumptions: []string{"hash equality is demanded only for the four dimensions the statement lists (time, file name, own alias, profile name)", "edits between an omitted algorithm and its default are not used (documentation names two defaults)"},
 		Budget:      budgets(quickBudget, thoroughBudget),
 		Enumerate:   c13Enumerate,
